@@ -65,8 +65,17 @@ theorem arithUnary_rl (op : Instruction) (nop : NumOp) (v : Val F) :
     arithUnary fo op nop (Val.rl ρ v) = OpOut.rl ρ (arithUnary fo op nop v) := by
   cases v <;> simp [arithUnary, Val.rl, OpOut.rl]
 
+theorem sliceStart_rl (r : Val F) : sliceStart (Val.rl ρ r) = sliceStart r := by
+  cases r with
+  | range s e => cases s <;> cases e <;> simp [sliceStart, Val.rl]
+  | _ => simp [sliceStart, Val.rl]
+
+theorem compareSlices_rl (lv lr rv rr : Val F) :
+    compareSlices (Val.rl ρ lv) (Val.rl ρ lr) (Val.rl ρ rv) (Val.rl ρ rr) = compareSlices lv lr rv rr := by
+  cases lv <;> cases rv <;> simp [compareSlices, Val.rl, sliceStart_rl]
+
 theorem compareVals_rl (l r : Val F) : compareVals fo (Val.rl ρ l) (Val.rl ρ r) = compareVals fo l r := by
-  cases l <;> cases r <;> simp [compareVals, Val.rl]
+  cases l <;> cases r <;> simp [compareVals, Val.rl, compareSlices_rl]
 
 theorem cmpOp_rl (acc : Ordering → Bool) (l r : Val F) :
     cmpOp fo acc (Val.rl ρ l) (Val.rl ρ r) = Val.rl ρ (cmpOp fo acc l r) := by
